@@ -170,7 +170,14 @@ AmbVal(S, v, viaRef) ==
   CASE v.k = "struct" -> (viaRef /\ IsZero(v) /\ ExpObj(S, "struct", "x", v) # {<<>>}) \/ AmbObj(S, v)
     [] v.k \in {"ptr", "slice", "array", "map"} -> \E i \in 1..Len(v.kids) : AmbVal(S, v.kids[i], TRUE)
     [] OTHER -> FALSE
-AmbObj(S, o) == \E i \in 1..Len(o.kids) : AmbVal(S, o.kids[i], FALSE)
+(* ... except under a field that carries required and no exist: a non-nil pointer is not the zero value of its type
+   (C03), "skipped silently" is said of exist only, so the pointed-to struct, zero or not, must be validated *)
+HasKey(f, k) == \E j \in 1..Len(f.rules) : f.rules[j].key = k
+ReqOnly(f) == Walked(f) /\ HasKey(f, "required") /\ ~HasKey(f, "exist")
+AmbObj(S, o) == \E i \in 1..Len(o.kids) :
+                  LET f == S.types[o.n].fields[i]
+                      v == o.kids[i]
+                  IN IF ReqOnly(f) /\ v.k = "ptr" THEN AmbVal(S, Deref(v), FALSE) ELSE AmbVal(S, v, FALSE)
 AmbRootElem(S, e) == LET d == Deref(e) IN d.k = "struct" /\ AmbObj(S, d)   \* the roots themselves are always validated
 Ambiguous(S) == IF S.root.k \in {"ptr", "struct"} THEN AmbRootElem(S, S.root)
                 ELSE \E i \in 1..Len(S.root.kids) : AmbRootElem(S, S.root.kids[i])
